@@ -124,12 +124,13 @@ TotalStage(S, step, a, h) ==
                 \* the named deviation TotalDupPerDepth in forced-total mode: what is delivered for this call equals what
                 \* is owed up to repeated values (and repeated records), only when an intermediate level matches twice
                 act == ActualOf(h)
-                rest == SubSeq(act, S.ptr[h] + 1, Len(act))
+                n == Cardinality(R)            \* several activations may end at one event (an exception): this one owes n records
+                rest == IF S.ptr[h] + n <= Len(act) THEN SubSeq(act, S.ptr[h] + 1, S.ptr[h] + n) ELSE <<>>
                 dup == /\ Len(S2.fails) > Len(S.fails) /\ R # {} /\ rest # <<>>
                        /\ TotalNested(S.A, H.sel, a)
                        /\ { { <<rest[k].rec[i][1], Dedup(rest[k].rec[i][2])>> : i \in DOMAIN rest[k].rec } : k \in DOMAIN rest }
                           = { { <<y[1], Dedup(y[2])>> : y \in x[2] } : x \in R }
-                S3 == IF dup THEN [Fail(S, "TotalRecordNested", step, h) EXCEPT !.ptr[h] = Len(act), !.at[h] = @ \o [k \in DOMAIN rest |-> S.si]]
+                S3 == IF dup THEN [Fail(S, "TotalRecordNested", step, h) EXCEPT !.ptr[h] = @ + n, !.at[h] = @ \o [k \in DOMAIN rest |-> S.si]]
                       ELSE S2
             IN TotalStage([S3 EXCEPT !.leaves = SelectSeq(@, LAMBDA x : ~(x.h = h /\ x.chain[1] = a))], step, a, h + 1)
        ELSE LET R == { <<0, r>> : r \in TotalRecs(S.A, H.sel, a) }
